@@ -23,7 +23,7 @@ func init() {
 		Level: "exploration",
 		Rule: "case idx: message length = 1 + idx mod L octets (every length 1..L, L=300 quick / 2100 thorough; every eighth case a long message: 2^k+d for k=9..16, |d|<=17, and random lengths up to 66000 octets; one case in 400 a very long one: 2^18, 2^19, 2^20, 3*2^19 or 2^21 octets plus a small offset), random key, COUNT in {0,1,2^24-1,2^32-1,random}, BEARER cycling through all 0..31, DIRECTION 0|1; " +
 			"each case evaluates NEA0, NEA1, NEA2 (security.NASEncrypt, in place) and NIA1, NIA2 (security.NASMacCalculate) against ref/sec, checks encrypt(encrypt(m))==m, keystream coverage of every octet, " +
-			"and repeats the call after an unrelated call with other parameters. distinct = hash(inputs); all cases non-trivial",
+			"and repeats the call after an unrelated call with other parameters. The per-process Init makes the first SNOW 3G / AES calls of the process with an all-zero key and zero parameters; beyond 300000 octets only the AES algorithms are evaluated. distinct = hash(inputs); all cases non-trivial",
 		Assumptions: []string{
 			"octet-aligned, non-empty messages (the NAS API is octet based)",
 			"ref/sec: SNOW 3G with S-boxes computed from their algebraic definitions, hand-rolled AES-CTR and AES-CMAC; self-tested on TS 35.222 / TS 33.401 / RFC 4493 vectors at start",
